@@ -556,6 +556,17 @@ class CallMixin:
                 return self.call_builtin_method(func.args[0], func.args[1], args, kwargs, module, node)
             if func.op == "nodemeth":
                 n, name = func.args
+                if name.startswith("_") and not name.startswith("__") and isinstance(n, NodeV) and len(n.kinds) == 1:
+                    # a private helper of the node's own class: evaluated, not treated as an opaque node method
+                    r0 = self.repo.lookup_method(AST_PREFIX + next(iter(n.kinds)), name)
+                    if r0 is not None and len(self.stack) < self.inline_depth + 2:
+                        decos0 = [ast.unparse(x) for x in r0[1].decorator_list]
+                        if "staticmethod" in decos0:
+                            return self.call_function(r0[0].module, r0[1], list(args), kwargs, r0[0].qual)
+                        if "classmethod" in decos0:
+                            return self.call_function(r0[0].module, r0[1], [RefV(r0[0].qual)] + list(args), kwargs, r0[0].qual)
+                        if "property" not in decos0:
+                            return self.call_function(r0[0].module, r0[1], [n] + list(args), kwargs, r0[0].qual)
                 self.event("node_method", node=_describe(n), method=name)
                 if name == "unpack" or name.startswith("py_"):
                     self.may_raise("builtins.ValueError", f"{_describe(n)}.{name}()")
